@@ -95,7 +95,7 @@ Definition init_shared (c : cfg) (limit : Z) : shared :=
        (fun p => if p =? a then raw_of t (c_off0 c)
                  else if p =? (a + 1) mod 3 then raw_of (wrap32 (t + 1 - 3)) 0
                  else raw_of (wrap32 (t + 2 - 3)) 0)
-       (c_n0 c) limit 0 0.
+       (c_n0 c) limit 0 (c_n0 c * TL c + c_off0 c).
 
 (* ---- publisher machine ---- *)
 Inductive ppc :=
@@ -300,7 +300,7 @@ Definition render_mem (c : cfg) (m : mem) (p : Z) : list (Z * Z) := render_part 
 
 Definition dump (c : cfg) (s : shared) :=
   (sh_count s, [sh_tail s 0; sh_tail s 1; sh_tail s 2],
-   [render_mem c (sh_mem s) 0; render_mem c (sh_mem s) 1; render_mem c (sh_mem s) 2], sh_limit s).
+   [render_mem c (sh_mem s) 0; render_mem c (sh_mem s) 1; render_mem c (sh_mem s) 2], sh_limit s, sh_subpos s).
 
 Inductive status := Done | Stopped | Panicked.
 Definition thread_obs (stop : nat -> option nat) (granted : nat -> nat) (t : nat) (th : thread) : status * list (outcome Z) :=
@@ -316,7 +316,8 @@ Definition threads_of (ths : list thread) : nat -> thread := fun t => nth t ths 
 Definition run_case (c : cfg) (limit : Z) (ths : list thread) (sched : list nat) (stops : list (option nat)) :=
   let n := length ths in
   let '(s, th, g, tr) := run (tstep c) n (Z.to_nat 20000) (stop_of stops) sched (init_shared c limit, threads_of ths) in
-  (map ev_tuple tr, map (fun t => thread_obs (stop_of stops) g t (th t)) (seq 0 n), dump c s).
+  (map ev_tuple tr, map (fun t => thread_obs (stop_of stops) g t (th t)) (seq 0 n), dump c s,
+   @nil (Z * Z * Z * Z * list Z)).
 
 Definition pub (budget : nat) (msgs : list (list Z)) : thread := TPub (p_start msgs budget []).
 Definition env (ops : list envop) : thread := TEnv (mkEL ops []).
